@@ -9,7 +9,7 @@ import itertools
 import random
 
 NEST = ["nest_pass", "nest_fail", "nest_error", "nest_pending", "nest_undef"]      # the step calls context.execute_steps()
-OUTCOMES = ["pass", "fail", "error", "pending", "undefined", "skip", "kbd", "badarg", "skip_fail"] + NEST
+OUTCOMES = ["pass", "fail", "error", "pending", "undefined", "skip", "kbd", "badarg", "skip_fail", "abort"] + NEST
 NONPASS = OUTCOMES[1:]
 TAGPOOL = ["t1", "t2", "wip"]
 
@@ -199,7 +199,7 @@ def family_scen(max_steps=3, quick=False):
 def family_tree(rnd, n, quick=False):
     """<=2 features, <=1 rule each, <=4 scenarios/rows with <=2 own steps, tags at every level"""
     progs = []
-    outcomes = ["pass", "pass", "pass", "fail", "error", "undefined", "kbd", "skip", "skip_fail", "pending", "nest_pass", "nest_fail", "nest_undef"]
+    outcomes = ["pass", "pass", "pass", "fail", "error", "undefined", "kbd", "abort", "skip", "skip_fail", "pending", "nest_pass", "nest_fail", "nest_undef"]
 
     def rtags(p=0.35):
         return [t for t in TAGPOOL if rnd.random() < p]
@@ -241,7 +241,7 @@ def family_tree(rnd, n, quick=False):
 
 def family_big(rnd, n):
     progs = []
-    outcomes = ["pass"] * 8 + ["fail", "error", "undefined", "kbd", "skip", "skip_fail", "pending", "badarg"] + NEST
+    outcomes = ["pass"] * 8 + ["fail", "error", "undefined", "kbd", "abort", "skip", "skip_fail", "pending", "badarg"] + NEST
 
     def rtags(p=0.3):
         return [t for t in TAGPOOL if rnd.random() < p]
